@@ -230,6 +230,60 @@ M64 = (1 << 64) - 1
 BASE_S = (0x1111, 0x2222, 0x3333, 0x4444)
 
 
+def judge_host_timezone():
+    """the host's time zone (TZ) is part of the operating system the tool runs on: log, trace and event lines of one dump, with the
+    timezone option left unset and set explicitly, are the same under every TZ."""
+    import io
+    import os
+    import time
+    from datetime import timezone, timedelta
+    from mc import build as B
+    from pykdebugparser.pykdebugparser import PyKdebugParser
+    logs = B.v3_block(B.TAG_LOG_EVENTS, B.bplist({'Events': [
+        {'cm': 1, 't': 'logEvent', 's': i, 'tid': 1, 'ns': 5, 'mct': 6 + i, 'b': b'B' * 16, 'piu': b'P' * 16,
+         'ud': {'sec': sec, 'usec': 7}, 'utz': {'mw': 0, 'dt': 0}, 'p': 2, 'pid': 10}
+        for i, sec in enumerate((1600000000, 1600000000 + 11 * 3600 + 1800, 86399))]}))
+    sidx = B.v3_block(B.TAG_LOG_STRINGS, B.bplist({'StringIndex': {'hello': 1, 'proc': 2}}))
+    recs = [B.rec(1000, (0, 0, 0, 0), 1, E.n2i('BSC_getpid') | 1), B.rec(2000, (0, 5, 0, 0), 1, E.n2i('BSC_getpid') | 2)]
+    blob = B.v3([(1, 10, 'proc')], [recs], [sidx, logs])
+
+    def lines(explicit):
+        out = []
+        for api in ('formatted_logs', 'formatted_traces', 'formatted_kevents'):
+            f = PyKdebugParser()
+            f.color = False
+            if explicit:
+                f.numer, f.denom, f.mach_absolute_time, f.usecs_since_epoch = 125, 3, 500, 1600000000 * 10 ** 6
+                f.timezone = timezone(timedelta(hours=2))
+            out.append(list(getattr(f, api)(io.BytesIO(blob))) if api == 'formatted_logs' else list(getattr(f, api)(io.BytesIO(blob), dict(E.codes()))))
+        return out
+    saved = os.environ.get('TZ')
+    seen = {}
+    try:
+        for tz in ('UTC', 'EST5EDT', 'NZST-12NZDT', 'IST-5:30'):
+            os.environ['TZ'] = tz
+            time.tzset()
+            for explicit in (False, True):
+                seen[(tz, explicit)] = lines(explicit)
+    except Exception as ex:
+        return [('formatting-raised-under-host-timezone:' + type(ex).__name__, {'error': repr(ex)[:200]})]
+    finally:
+        if saved is None:
+            os.environ.pop('TZ', None)
+        else:
+            os.environ['TZ'] = saved
+        time.tzset()
+    bad = []
+    for (tz, explicit), got in seen.items():
+        ref = seen[('UTC', explicit)]
+        if got != ref:
+            k = next(i for i in range(3) if got[i] != ref[i])
+            bad.append(('host-dependent-output:timezone-of-the-host@' + ('formatted_logs', 'formatted_traces', 'formatted_kevents')[k],
+                        {'TZ': tz, 'timezone_option_set': explicit, 'line': got[k][:1], 'under_UTC': ref[k][:1]}))
+            break
+    return bad
+
+
 class C18(Check):
     pid = 'C18'
     level = 'model_checking'
@@ -238,7 +292,7 @@ class C18(Check):
             'restored after each case. Inputs: every BSD decoder x END error word 0..255 and 9999; every BSD decoder x every numeric START position x value 0..64 (a word that a new code path looks up in a host table shows here); sigaction x signal 0..40; '
             'socket/socketpair/socket_delegate x family 0..45 x type 0..7; get/setsockopt x level {0,1,6,0xffff} x every declared '
             'SO_ option + 2 undeclared. Oracle: the rendered text (or the exception type) is identical under every configuration. '
-            'Plus a static scan of every import in pykdebugparser/** against the list of host-dependent stdlib modules: anything '
+            'Plus the log / trace / event lines of one version-3 dump (log records near midnight) with the timezone option unset and set, under the host time zones UTC, EST5EDT, NZST-12NZDT, IST-5:30: identical. Plus a static scan of every import in pykdebugparser/** against the list of host-dependent stdlib modules: anything '
             'beyond the three modelled seams is a violation. states = configurations; transitions = renders; non-trivial = input '
             'whose rendering shows a host-table name under at least one configuration.')
     assumptions = ('the host is modelled by the interpreter tables the code imports today plus the import scan; a dependency through '
@@ -253,7 +307,7 @@ class C18(Check):
         names = [n for n in D.decoder_names() if n.startswith('BSC_')]
         return [('errno', ch) for ch in chunked(names, 32)] + [('small', ch) for ch in chunked(names, 32)] + [('signal',), ('socket', 'BSC_socket'), ('socket', 'BSC_socketpair'),
                                                                ('socket', 'BSC_socket_delegate'), ('sockopt', 'BSC_getsockopt'),
-                                                               ('sockopt', 'BSC_setsockopt'), ('imports',)]
+                                                               ('sockopt', 'BSC_setsockopt'), ('imports',), ('tz',)]
 
     def _compare(self, acc, name, s, e):
         cfgs = configurations()
@@ -314,6 +368,10 @@ class C18(Check):
             for lvl in (0, 1, 6, 0xffff):
                 for o in opts:
                     self._compare(acc, desc[1], (3, lvl, o, 0x4444), (0, 0, 0, 0))
+        elif kind == 'tz':
+            for sig, detail in judge_host_timezone():
+                acc.violation(sig, {'kind': 'tz'}, detail)
+            acc.case(nontrivial=True, transitions=36, state=h64('tz'))
         else:
             for rel, mod in import_scan():
                 acc.violation(f'unmodelled-host-dependent-import:{mod}@{rel}', {'kind': 'import', 'file': rel, 'module': mod}, {})
@@ -321,6 +379,8 @@ class C18(Check):
             acc.case(nontrivial=True, transitions=1)
 
     def replay(self, case):
+        if case.get('kind') == 'tz':
+            return judge_host_timezone()
         if case.get('kind') == 'import':
             return [(f"unmodelled-host-dependent-import:{m}@{r}", {}) for r, m in import_scan() if r == case['file'] and m == case['module']]
         s = tuple(int(x, 16) for x in case['start'])
